@@ -145,17 +145,13 @@ func runMode(ctx context.Context, c *Case, m Mode, dir string) (res ModeResult) 
 		res.Skip = "plan-error"
 		// still apply: an error must leave the database alone
 	}
-	// the model's input: state before, connection state as the plan finds it (OpenTx has
-	// switched enforcement off before BEGIN), the differ's change list
-	fkState, inTx := m.FK, m.Tx != "none"
-	if m.Tx == "file" {
-		fkState = false
-	}
+	// the model's input: the state before, the connection's own foreign_keys setting, how the plan
+	// is run, the differ's change list
 	kk := -1
 	if m.Tx == "prefix" {
-		kk, inTx = m.K, false
+		kk = m.K
 	}
-	res.TieCase, res.TieSkip = tieCase(ctx, before, cur, changes, fkState, inTx, kk)
+	res.TieCase, res.TieSkip = tieCase(ctx, before, cur, changes, m.FK, m.Tx, kk)
 	applyErr := applyLikeCLI(ctx, client, changes, m.Tx, m.K)
 	res.ErrClass = classify(applyErr)
 	if applyErr == errPrefix {
